@@ -10,17 +10,6 @@ From Coq Require Import Lia.
 Local Open Scope N_scope.
 
 (* ---------- numbers ---------- *)
-Definition num_ok (n : number) : bool :=
-  match n with NRat _ d => negb (d =? 1)%positive | _ => true end.
-Definition bad_num_node (e : expr) : bool :=
-  match e with
-  | ENum n => negb (num_ok n)
-  | EAdd c d => negb (num_ok c) || existsb (fun p => negb (num_ok (snd p))) d
-  | EMul c _ => negb (num_ok c)
-  | _ => false
-  end.
-Definition nums_ok (e : expr) : bool := negb (any_node bad_num_node e).
-
 Lemma num_eqb_int : forall v1 v2 c, Cmp.num_eqb v1 v2 = true ->
   Cmp.num_eqb v1 (NInt c) = Cmp.num_eqb v2 (NInt c).
 Proof.
@@ -110,7 +99,9 @@ Lemma mul_from_dict_cong : forall v1 v2 dk1 dk2, Cmp.num_eqb v1 v2 = true ->
 Proof.
   intros v1 v2 dk1 dk2 Hv O1 O2 Hd.
   destruct dk1 as [|[k1 x1] [|p1 r1]]; destruct dk2 as [|[k2 x2] [|p2 r2]]; cbn [pairs_eqb] in Hd; try discriminate;
-    try (destruct p1; discriminate); try (destruct p2; discriminate).
+    try (destruct p1; discriminate); try (destruct p2; discriminate);
+    try (rewrite andb_false_r in Hd; discriminate);
+    try (destruct p1; rewrite andb_false_r in Hd; discriminate); try (destruct p2; rewrite andb_false_r in Hd; discriminate).
   - unfold mul_from_dict. rewrite <- (nis_zero_cong _ _ Hv). destruct (nis_zero v1); rewrite eqb_nums; exact Hv.
   - rewrite !mul_from_dict_single. rewrite <- (nis_zero_cong _ _ Hv), <- (nis_one_cong _ _ Hv O1 O2).
     apply andb_true_iff in Hd. destruct Hd as [Hd _]. apply andb_true_iff in Hd. destruct Hd as [Hk Hx].
@@ -120,7 +111,7 @@ Proof.
     + destruct (is_int_one x1); [exact Hk|]. rewrite eqb_pow, Hk, Hx. reflexivity.
     + rewrite eqb_mul, Hv. cbn [pairs_eqb]. rewrite Hk, Hx. reflexivity.
   - unfold mul_from_dict. rewrite <- (nis_zero_cong _ _ Hv). destruct (nis_zero v1); [rewrite eqb_nums; exact Hv|].
-    rewrite eqb_mul, Hv. cbn [pairs_eqb andb]. exact Hd.
+    cbv iota. rewrite eqb_mul, Hv. cbn [pairs_eqb andb]. exact Hd.
 Qed.
 
 Lemma as_mul_cong : forall k1 k2 v1 v2, expr_eqb k1 k2 = true -> Cmp.num_eqb v1 v2 = true ->
